@@ -274,6 +274,35 @@ func gen(seed uint64, tier string) {
 			fmt.Fprintln(out, docLine(k, rn, r.U64()%1000000, objs))
 		}
 	}
+	// histories: 2-3 extractions on ONE reader; and extractions cancelled on the n-th rewind
+	objsTok := func(objs []obj) string {
+		t := make([]string, len(objs))
+		for i, o := range objs {
+			t[i] = o.tok()
+		}
+		return strings.Join(t, " ")
+	}
+	for _, c := range corpus[:8] {
+		fmt.Fprintf(out, "h 0 bounds:0,0,2,2 tags:1=1 all | %s\n", c)
+		fmt.Fprintf(out, "h e all bounds:0,0,2,2 | %s\n", c)
+		for n := 1; n <= 3; n++ {
+			fmt.Fprintf(out, "c %d all | %s\n", n, c)
+			fmt.Fprintf(out, "c %d bounds:0,0,2,2 | %s\n", n, c)
+		}
+	}
+	nhist := ndocs / 3
+	for i := 0; i < nhist; i++ {
+		g.lo, g.hi = 0, 4
+		objs := g.doc(5+r.Intn(30), i%7 == 6)
+		ks := []string{g.boundsTok(), tagKeeps[r.Intn(len(tagKeeps))], "all", g.boundsTok()}
+		for j := len(ks) - 1; j > 0; j-- {
+			k := r.Intn(j + 1)
+			ks[j], ks[k] = ks[k], ks[j]
+		}
+		nk := 2 + r.Intn(2)
+		fmt.Fprintf(out, "h %s %s | %s\n", []string{"0", "m", "e"}[r.Intn(3)], strings.Join(ks[:nk], " "), objsTok(objs))
+		fmt.Fprintf(out, "c %d %s | %s\n", 1+r.Intn(4), ks[r.Intn(len(ks))], objsTok(objs))
+	}
 	for i := 0; i < ndang; i++ {
 		objs := g.doc(5+r.Intn(30), true)
 		for _, k := range []string{g.boundsTok(), tagKeeps[r.Intn(len(tagKeeps))], "all"} {
